@@ -269,11 +269,89 @@ func (c *C04) mono(w *World, pre, post *Snapshot, what string) {
 	}
 }
 
-func (c *C04) AfterBegin(w *World, b *BeginCtx)     { c.mono(w, b.Pre, b.Post, "BeginBlock") }
+// pools returns, per batch key, the credits that can still be spent (tradable and escrowed
+// balances, basket holdings) and the credits that are dead (retired balances, cancelled supply).
+func pools(s *Snapshot) (live, dead map[uint64]*big.Rat, ok bool) {
+	live, dead = map[uint64]*big.Rat{}, map[uint64]*big.Rat{}
+	add := func(m map[uint64]*big.Rat, k uint64, v string) bool {
+		x, good := DecOrZero(v)
+		if !good {
+			return false
+		}
+		if m[k] == nil {
+			m[k] = new(big.Rat)
+		}
+		m[k].Add(m[k], x)
+		return true
+	}
+	for _, b := range s.Balances {
+		if !add(live, b.BatchKey, b.TradableAmount) || !add(live, b.BatchKey, b.EscrowedAmount) || !add(dead, b.BatchKey, b.RetiredAmount) {
+			return nil, nil, false
+		}
+	}
+	for _, sp := range s.Supplies {
+		if !add(dead, sp.BatchKey, sp.CancelledAmount) {
+			return nil, nil, false
+		}
+	}
+	for _, bb := range s.BasketBals {
+		b := s.BatchByDenom(bb.BatchDenom)
+		if b == nil || !add(live, b.Key, bb.Balance) {
+			return nil, nil, false
+		}
+	}
+	return live, dead, true
+}
+
+// second: the corollary. Outside issuance, every credit that becomes retired or cancelled leaves
+// the pool of spendable credits one for one - otherwise it could be sent, sold, put, bridged or
+// retired a second time.
+func (c *C04) second(w *World, pre, post *Snapshot, what string) {
+	l0, d0, ok0 := pools(pre)
+	l1, d1, ok1 := pools(post)
+	if !ok0 || !ok1 {
+		return
+	}
+	z := new(big.Rat)
+	get := func(m map[uint64]*big.Rat, k uint64) *big.Rat {
+		if m[k] == nil {
+			return z
+		}
+		return m[k]
+	}
+	for _, b := range pre.Batches {
+		died := RatSub(get(d1, b.Key), get(d0, b.Key))
+		left := RatSub(get(l0, b.Key), get(l1, b.Key))
+		if died.Cmp(left) != 0 {
+			w.Violate("R4", "retired-or-cancelled-credits-still-spendable", "%s: in batch %s retired balances + cancelled supply grew by %s while tradable + escrowed + basket holdings shrank by %s: the difference stays spendable (or vanished) although it was retired or cancelled", what, b.Denom, RatStr(died), RatStr(left))
+			return
+		}
+	}
+}
+
+func issues(msgs []sdk.Msg) bool {
+	for _, m := range msgs {
+		switch msgTypeName(m) {
+		case "v1.MsgCreateBatch", "v1.MsgMintBatchCredits", "v1.MsgBridgeReceive", "ecocredit.MsgCreateBatch", "ecocredit.MsgMintBatchCredits", "ecocredit.MsgBridgeReceive":
+			return true
+		}
+	}
+	return false
+}
+
+func (c *C04) AfterBegin(w *World, b *BeginCtx) {
+	c.mono(w, b.Pre, b.Post, "BeginBlock")
+	if w.Viol == nil {
+		c.second(w, b.Pre, b.Post, "BeginBlock")
+	}
+}
 func (c *C04) AfterRestart(w *World, r *RestartCtx) { c.mono(w, r.Pre, r.Post, "restart("+r.Kind+")") }
 func (c *C04) AfterTx(w *World, t *TxCtx) {
 	c.mono(w, t.Pre, t.Post, fmt.Sprintf("tx[%s ok=%v]", t.Step.Note, t.Res.OK))
-	if !t.Res.OK {
+	if w.Viol == nil && !issues(t.Msgs) {
+		c.second(w, t.Pre, t.Post, fmt.Sprintf("tx[%s ok=%v]", t.Step.Note, t.Res.OK))
+	}
+	if !t.Res.OK || w.Viol != nil {
 		return
 	}
 	// non-triviality bookkeeping: rows with retired > 0 that get rewritten by different message types
